@@ -35,9 +35,14 @@ PINNED_XML = r"""(<\?xml\s+
         (standalone=(?P<standalonequote>[\"'])(?P<standalone>[\w]+)(?P=standalonequote))?\s*
         \?>)\s*"""
 CODEC_IDS = {"iso8859-1": 0, "cp1252": 1, "utf-8": 2}
-# normalised-AST hashes (docstrings and comments dropped) of every function Model/Header.v transcribes by hand.  A changed hash
-# makes `header_source_is_pinned = false` in Gen/HeaderGen.v, which breaks the obligation Props/*/source_is_pinned.v: the model is
-# then no longer tied to the source (reported as such even when the rewrite is harmless; the search still looks for a failing input).
+# normalised-AST hashes (docstrings and comments dropped) of every function Model/Header.v transcribes by hand.  The hash is a TRIPWIRE, not
+# the tie: the tie between a hand-transcribed function and its model is the correspondence check, run on every check.  A changed hash is
+# listed in the module-level SOURCE_CHANGES (reset at each translate); tools/ofxv/check.py then re-runs the correspondence and the property
+# search under two more seeds and prints a NOTE (exit 0) when model and code still agree everywhere, or reports as usual otherwise.
+# Only a function that can no longer be hashed at all (moved, replaced by something the translator cannot read) is a hard problem:
+# `header_source_is_pinned = false`, which breaks Props/*/source_is_pinned.v.  Everything REGENERATED (OneOf domains, Integer/String limits,
+# version tables, the codecs map) stays fail-closed as before; a changed regex pattern / flags switches the run to its deep setting.
+SOURCE_CHANGES = []
 SOURCE_PINS = {
     "OFXHeaderBase.parse": "eef6dab1ad29", "OFXHeaderV1.__init__": "7b4e52b3ee9e", "OFXHeaderV1.__str__": "0a44b560134b",
     "OFXHeaderV1.codec": "a3576a0230ef", "OFXHeaderV2.__init__": "61ec438ca00c", "OFXHeaderV2.__str__": "472bcc817f94",
@@ -84,7 +89,7 @@ def source_pins(H, T):
                        (T.String, ["convert", "enforce_length", "_convert_str", "_convert_none"])):
         for n in names:
             items["Types.%s.%s" % (cls.__name__, n)] = cls.__dict__.get(n)
-    hashes, problems = {}, []
+    hashes, problems, changes = {}, [], []
     for k, f in items.items():
         try:
             hashes[k] = ast_hash(f)
@@ -93,13 +98,13 @@ def source_pins(H, T):
             problems.append("%s: cannot hash (%r)" % (k, e))
             continue
         if hashes[k] != SOURCE_PINS.get(k):
-            problems.append("%s changed (hash %s, pinned %s)" % (k, hashes[k], SOURCE_PINS.get(k)))
+            changes.append("%s changed (hash %s, pinned %s)" % (k, hashes[k], SOURCE_PINS.get(k)))
     # methods added to the header classes (an override the model knows nothing about)
     for cls, known in ((H.OFXHeaderBase, {"parse", "__init__"}), (H.OFXHeaderV1, {"__init__", "__str__", "codec"}), (H.OFXHeaderV2, {"__init__", "__str__"})):
         for n, v in cls.__dict__.items():
             if (callable(v) or isinstance(v, (property, classmethod, staticmethod))) and n not in known and not isinstance(v, (T.Element, re.Pattern)):
-                problems.append("%s.%s: method not modelled" % (cls.__name__, n))
-    return hashes, problems
+                changes.append("%s.%s: method added" % (cls.__name__, n))
+    return hashes, problems, changes
 
 
 def _norm(ws):
@@ -248,7 +253,8 @@ def read_header_module():
         same = _norm(rx.pattern) == _norm(pinned) and (rx.flags & ~re.UNICODE) == flags
         pats[key] = (rx.pattern, same)
     d["patterns"] = pats
-    d["source_hashes"], d["source_problems"] = source_pins(H, T)
+    d["source_hashes"], d["source_problems"], d["source_changes"] = source_pins(H, T)
+    SOURCE_CHANGES[:] = d["source_changes"]
     d["module"] = H
     return d
 
@@ -291,6 +297,7 @@ def gen_header():
     o.append("(* the hand-transcribed functions of header.py / Types.py are the ones Model/Header.v was written against (normalised-AST hashes) *)")
     o.append("Definition header_source_is_pinned : bool := %s." % C.cbool(not d["source_problems"]))
     o.append("(* source problems: %s *)" % json.dumps(d["source_problems"]).replace("*)", "* )").replace("(*", "( *").replace('"', "'"))
+    o.append("(* source changes (tripwire only; tie = correspondence): %s *)" % json.dumps(d["source_changes"]).replace("*)", "* )").replace("(*", "( *").replace('"', "'"))
     o.append("(* code points with str.isspace() (= re \\s) *)")
     o.append("Definition space_table : list N := %s." % C.clist([C.cN(c) for c in space]))
     o.append("(* inclusive ranges of str.isalnum() or '_' (= re \\w) *)")
